@@ -2,7 +2,7 @@
 # tools/try_patch.sh <patch.diff> <id>...   apply a seeded change to /repo, run the given checks, undo it.
 set -u
 P=$1; shift
-trap 'git -C /repo reset -q; git -C /repo checkout -- . 2>/dev/null' EXIT PIPE INT TERM
+trap 'git -C /repo reset -q; git -C /repo checkout -- . 2>/dev/null; git -C /repo clean -fdq -- src 2>/dev/null' EXIT PIPE INT TERM
 cd /repo || exit 2
 if ! git diff --quiet; then echo "repo dirty"; exit 2; fi
 if ! git apply "$P"; then echo "patch does not apply"; git reset -q; git checkout -- . ; exit 3; fi
